@@ -109,6 +109,28 @@ def ob_greedy(k, mode):
     return f
 
 
+def ob_greedy_short(k, j, mode):
+    """fewer (or more) candidates than agents: whatever the serial branch does - it raises IndexError for a short list -
+    the pooled branch must do too, not silently drop the unpaired agents"""
+    def f():
+        with env(stubs.pool_layer()):
+            outcomes = []
+            for m in ("serial", mode):
+                o = Scripted(config(population_size=k))
+                o._population = [agent(("o", i), float(i)) for i in range(k)]
+                o._mode = ModeSolver(m)
+                try:
+                    o._greedy_select_population([agent(("n", i), float(i) - 0.5) for i in range(j)])
+                    outcomes.append(("ok", sorted(tags_of(o._population))))
+                except Exception as e:
+                    outcomes.append((type(e).__name__, None))
+            if outcomes[0] != outcomes[1]:
+                return Failure("pooled-selection-behaves-differently-from-serial", serial=outcomes[0], pooled=outcomes[1],
+                               agents=k, candidates=j)
+            return OK
+    return f
+
+
 def ob_optimize(mode, n):
     def f():
         st = stubs.Stream("np")
@@ -206,6 +228,9 @@ def obligations(tier):
         obs.append(Ob(f"optimize[{mode},n=2]", ob_optimize(mode, 2), 900))
         # "for any worker count": number of agents and worker count are solver variables (no evaluation lost)
         obs.append(Ob(f"any_worker_count[{mode}]", ob_generate_workers(mode, 12 if th else 8, 6 if th else 5), 900))
+    for mode in ("thread", "process"):
+        for k, j in ((3, 2), (3, 1), (2, 3)):
+            obs.append(Ob(f"greedy_short[k={k},j={j},{mode}]", ob_greedy_short(k, j, mode), 120))
     for mode in ("serial", "thread", "process"):
         obs.append(Ob(f"failing_evaluation[{mode},n=3]", ob_failing_evaluation(mode, 3), 300))
     for n in (2, 3):
